@@ -11,9 +11,9 @@ git apply -R $DIFF
 /venv/bin/python $DEMO > /tmp/demo-$NAME-without.txt 2>&1; RC_WITHOUT=$?
 git apply $DIFF
 echo "demo with change rc=$RC_WITH, without rc=$RC_WITHOUT"
-/venv/bin/python -m pytest -q -p no:cacheprovider -x -q glue/core/tests glue/utils/tests glue/viewers ${EXTRA_TESTS:-} --deselect glue/core/tests/test_pandas.py 2>&1 | tail -3 > /tmp/tests-$NAME.txt
-cat /tmp/tests-$NAME.txt
-if [ $RC_WITH -ne 0 ] && [ $RC_WITHOUT -eq 0 ]; then
+/venv/bin/python -m pytest -q -p no:cacheprovider -x glue/core/tests glue/utils/tests glue/viewers ${EXTRA_TESTS:-} --deselect glue/core/tests/test_pandas.py > /tmp/tests-$NAME.txt 2>&1; RC_TESTS=$?
+echo "pytest rc=$RC_TESTS: $(tail -1 /tmp/tests-$NAME.txt)"
+if [ $RC_WITH -ne 0 ] && [ $RC_WITHOUT -eq 0 ] && [ $RC_TESTS -eq 0 ]; then
   mkdir -p /verif/seeded/$NAME
   cp $DIFF /verif/seeded/$NAME/patch.diff
   cp $DEMO /verif/seeded/$NAME/demo.py
